@@ -106,8 +106,8 @@ def subharnesses(tier):
             [(0, 1), (0, None), (1, 1)]
         for res in (residents if ns == 2 else [(0, 1)]):
             for pv in (('plain', 'prio', 'trait', 'affinity', 'lease',
-                        'partition', 'behind_unplaceable', 'after_remove',
-                        'after_down_up') if ns == 2 else
+                        'lease_late', 'partition', 'behind_unplaceable',
+                        'after_remove', 'after_down_up') if ns == 2 else
                        ('plain', 'trait', 'after_remove')):
                 servers = [{} for _ in range(ns)]
                 apps = [{'place': j} for j in res]
@@ -121,7 +121,7 @@ def subharnesses(tier):
                         a['aff'] = 'x'
                         a['limits'] = {'server': 1, 'rack': 2}
                     probe = {'aff': 'x', 'limits': {'server': 1, 'rack': 2}}
-                elif pv == 'lease':
+                elif pv in ('lease', 'lease_late'):
                     probe = {'lease': 3600}
                 elif pv == 'partition':
                     servers = [{'label': 'p0'}, {'label': 'p1'},
@@ -223,6 +223,13 @@ def _probe(S, spec):
     for ev in spec.get('pre_events', []):
         g1.apply_event(W, tuple(ev))
     probe = W.apps[-1]
+    if spec.get('pv') == 'lease_late':
+        # lifetimes are assigned after the servers were attached, the way
+        # Loader.set_server_valid_until does it (Partition.add ->
+        # RebootBucket.add writes server.valid_until)
+        for srv in W.servers:
+            for label in srv.labels:
+                W.cell.partitions[label].add(srv)
     if spec['havoc'] == 'agg':
         _havoc(W)
     else:
